@@ -183,12 +183,12 @@ def parse(path):
                 n = int(arg.split()[0])
                 cur_block = Block('loopbody', '', path, no)
                 cur_fn.loopbodies[n] = cur_block
-            elif re.match(r'@(before|after)(all|\[\d+\])?$', d):
+            elif re.match(r'@(before|after)(all|\[(?:\d+|last)\])?$', d):
                 # @before[k] / @after[k]: the k-th line matching the regex (instead of "the unique line")
-                mo_ = re.match(r'@(before|after)(all|\[(\d+)\])?$', d)
+                mo_ = re.match(r'@(before|after)(all|\[(\d+|last)\])?$', d)
                 cur_block = Block('anchor', arg, path, no)
                 where_ = mo_.group(1) + ('all' if mo_.group(2) == 'all' else '')
-                cur_block.occurrence = int(mo_.group(3)) if mo_.group(3) else None
+                cur_block.occurrence = (-1 if mo_.group(3) == 'last' else int(mo_.group(3))) if mo_.group(3) else None
                 cur_fn.anchors.append((where_, arg, cur_block))
             elif d == '@raw':
                 cur_block = Block('raw', arg, path, no); fs.raw.append(cur_block)
